@@ -302,6 +302,7 @@ a (pkg, name) pair always comes with the same underlying type, which the wire pa
 inductive GTy where
   | basic (name : Name)                       -- predeclared types, by the name `TypeString` prints
   | named (pkg : Nat) (name : Name) (under : GTy)
+  | namedM (pkg : Nat) (name : Name) (under : GTy)   -- a declared type WITH declared methods (`NumMethods() > 0`)
   | ptr (t : GTy)
   | slice (t : GTy)
   | array (n : Nat) (t : GTy)
@@ -322,12 +323,19 @@ namespace GTy
 
 def under : GTy → GTy
   | .named _ _ u => u
+  | .namedM _ _ u => u
   | t => t
 
 /-- go/types `hasName`: predeclared and declared types -/
 def hasName : GTy → Bool
   | .basic _ => true
   | .named _ _ _ => true
+  | .namedM _ _ _ => true
+  | _ => false
+
+/-- `hasMethods` of derive/typesmap.go (2c333b7): a declared type with declared methods -/
+def hasMethods : GTy → Bool
+  | .namedM _ _ _ => true
   | _ => false
 
 /-- the underlying type is an interface type -/
@@ -339,14 +347,17 @@ def isInterface (t : GTy) : Bool :=
 
 /-- `sameFunctionServes(a, b)` (0b79109) on this fragment (typed operands only): identical; or `b` is not
 an interface type and `types.AssignableTo(a, b)`, i.e. identical underlying types with at least one side
-unnamed, or a bidirectional channel for a directional one. A type that merely implements an interface is NOT served by the function for the interface. -/
+unnamed, or a bidirectional channel for a directional one. A type that merely implements an interface is NOT served by the function for the interface;
+neither does a declared type with methods share a function with a type it is not identical to (2c333b7: the
+generated code calls the methods of the one, which the other does not have). -/
 def assignable (a b : GTy) : Bool :=
-  a == b || (!b.isInterface && a.under == b.under && (!a.hasName || !b.hasName)) ||
+  a == b || (!a.hasMethods && !b.hasMethods &&
+  ((!b.isInterface && a.under == b.under && (!a.hasName || !b.hasName)) ||
   -- a bidirectional channel value is assignable to a directional channel type with an identical element type
   (match a.under, b.under with
     | .chan e, .chanR e' => e == e' && (!a.hasName || !b.hasName)
     | .chan e, .chanS e' => e == e' && (!a.hasName || !b.hasName)
-    | _, _ => false)
+    | _, _ => false)))
 
 /-- the predeclared type `error`: a named type of the universe scope -/
 def error : GTy := .named 1000 (asc "error") (.ifaceM [asc "Error"])
@@ -368,6 +379,7 @@ def lettersOf (n : Name) : List Letter := lettersAux n.length n
 
 def hint : GTy → List Letter
   | .named _ n _ => lettersOf n
+  | .namedM _ n _ => lettersOf n
   | .basic n => if hintBasics.contains n then lettersOf n else []
   | _ => []
 
